@@ -440,7 +440,8 @@ class QRStage(Stage):
 
     def _reset_instant(self):
         self.f_start = self.f_completion = self.f_raise = self.f_enqueue = self.f_enqueue_empty = False
-        self.n_notify = self.n_poll = 0
+        self.n_notify = self.n_poll = self.n_start_inst = 0
+        self.f_raise_backlog = False
 
     def entities(self):
         return [self.F] if self.F is not None else [self.Q, self.D, self.W]
@@ -652,6 +653,8 @@ class QRStage(Stage):
             ctx.hit("probe.server_reject_after_dequeue")
             if w > 1:
                 ctx.hit("probe.server_reject_heavy_head")
+            elif "transition" in self.inst:
+                ctx.hit("probe.server_reject_limit_lowered_in_flight")   # set_limit() shrank the pool under a dequeued item
             else:
                 ctx.hit("probe.server_reject_overpoll")
         else:
@@ -665,6 +668,7 @@ class QRStage(Stage):
             self.max_active = max(self.max_active, self.active_w)
             self.starts.append(rid)
             self.f_start = True
+            self.n_start_inst += 1
         if self.comp_active() != self.active_w:
             raise V("conserve", self.cls, "in-service-count-ne-ledger",
                     f"component reports {self.comp_active()} in service, ledger {self.active_w}")
@@ -695,6 +699,7 @@ class QRStage(Stage):
         if new > old:
             self.f_raise = True
             if self.waiting:
+                self.f_raise_backlog = True
                 self.ctx.hit("fault.capacity_raised_under_backlog")
             self.ctx.hit("probe.shift_capacity_raised")
             if old == 0 and self.waiting:
@@ -714,6 +719,7 @@ class QRStage(Stage):
             self.f_raise = True
             self.ctx.hit("probe.dynamic_limit_raised")
             if self.waiting:
+                self.f_raise_backlog = True
                 self.ctx.hit("fault.capacity_raised_under_backlog")
         self.limit = new
         if self.model.limit != new:
@@ -725,6 +731,12 @@ class QRStage(Stage):
             raise V("conserve", self.cls, "dequeued-never-delivered", f"rids {list(self.expect_deliver)} popped, no delivery")
         if self.inflight:
             raise V("conserve", self.cls, "delivered-never-started", f"rids {sorted(self.inflight)}")
+        if self.n_start_inst >= 2:
+            self.ctx.hit("probe.burst_pulled_in_within_instant")
+        if self.f_raise_backlog and self.f_start:
+            self.ctx.hit("probe.capacity_raise_pulled_backlog")
+        if self.n_notify >= 1 and self.f_completion and self.f_start:
+            self.ctx.hit("probe.notify_and_completion_coincide")
         if self.waiting:
             self.n_waited += 1
             h = self.ref.head(prev_ns)
